@@ -495,11 +495,11 @@ pub fn run_engine(s: &mut Src, ctx: &mut Ctx) -> Verdict {
             Op::Log(p) => {
                 let i = hs.len();
                 let prem: Vec<FactHandle> = p.iter().map(|&q| hs[q]).collect();
-                new_fact = Some(eng.insert_logical("Derived".to_string(), data(i), format!("rule{}", step), prem));
+                new_fact = Some(eng.insert_logical("Derived".to_string(), data(i), rule_of(i, step), prem));
             }
             Op::Just(t, p) => {
                 let prem: Vec<FactHandle> = p.iter().map(|&q| hs[q]).collect();
-                eng.tms_mut().add_logical_justification(hs[*t], format!("rule{}", step), prem);
+                eng.tms_mut().add_logical_justification(hs[*t], rule_of(*t, step), prem);
             }
             Op::Ret(x) => {
                 // Ok/Err is not judged: the statement speaks about which facts are present
@@ -568,11 +568,11 @@ pub fn run_tms(s: &mut Src, ctx: &mut Ctx) -> Verdict {
             }
             Op::Log(p) => {
                 let h = FactHandle::new(hs.len() as u64 + 1);
-                tms.add_logical_justification(h, format!("rule{}", step), p.iter().map(|&q| hs[q]).collect());
+                tms.add_logical_justification(h, rule_of(hs.len(), step), p.iter().map(|&q| hs[q]).collect());
                 hs.push(h);
             }
             Op::Just(t, p) => {
-                tms.add_logical_justification(hs[*t], format!("rule{}", step), p.iter().map(|&q| hs[q]).collect());
+                tms.add_logical_justification(hs[*t], rule_of(*t, step), p.iter().map(|&q| hs[q]).collect());
             }
             Op::Ret(x) => {
                 returned = Some(tms.retract_with_cascade(hs[*x]));
@@ -635,11 +635,23 @@ pub fn run_tms(s: &mut Src, ctx: &mut Ctx) -> Verdict {
     Verdict::Pass
 }
 
+/// Source rule of a justification. All justifications of one fact name the same rule (a rule that derives the same
+/// fact again from other premises is the ordinary case, and the one in which "same rule" shortcuts go wrong); facts
+/// with an index divisible by three get a rule name per step instead, so that distinct names occur as well.
+/// A pure function of the case: no draw.
+fn rule_of(fact: usize, step: usize) -> String {
+    if fact % 3 == 0 {
+        format!("rule{}", step)
+    } else {
+        format!("rule-of-{}", fact % 2)
+    }
+}
+
 pub fn property() -> Property {
     Property {
         id: "C08",
         level: "exploration",
-        rule: "generated: histories of <= 10 operations over <= 7 facts: insert/insert_explicit, insert_logical(1-3 live premises), tms_mut().add_logical_justification(live fact, 1-3 live premises created before it), retract(any handle ever issued, live or already absent); about two thirds start from a chain / and-diamond / or-diamond / two-justifications-sharing-a-premise / explicit-fact-with-extra-logical-justification prefix. Exhaustive parts enumerate every such history of exactly N operations (all prefixes are checked on the way) over <= F facts with <= P premises per justification (part name exhNFP, e.g. exh942 = 9 operations, 4 facts, 2 premises; exh1032 = 10 operations, 3 facts). Oracle: model from the statement (live set + justification list; retract removes the target, then to a fixpoint every fact with no explicit justification and no justification whose premises are all live). engine-* parts: after every operation working_memory().get(h).is_some() == model liveness for every handle ever issued, is_explicit/is_logical agree for live facts, has_valid_justification is true for live facts and equals model support for facts without explicit justification. tms-* parts: the set returned by retract_with_cascade (minus the target) equals the set the model removes besides the target, plus the same flag checks. Non-trivial: the history contains a retraction of a live fact that removes >= 2 facts, or leaves a fact alive only through another (second logical or explicit) justification after one of its justifications became invalid, or targets a derived fact; distinct by operation sequence.",
+        rule: "generated: histories of <= 10 operations over <= 7 facts: insert/insert_explicit, insert_logical(1-3 live premises), tms_mut().add_logical_justification(live fact, 1-3 live premises created before it), retract(any handle ever issued, live or already absent); the justifications of one fact name the same source rule (two facts in three) or a rule per step; about two thirds start from a chain / and-diamond / or-diamond / two-justifications-sharing-a-premise / explicit-fact-with-extra-logical-justification prefix. Exhaustive parts enumerate every such history of exactly N operations (all prefixes are checked on the way) over <= F facts with <= P premises per justification (part name exhNFP, e.g. exh942 = 9 operations, 4 facts, 2 premises; exh1032 = 10 operations, 3 facts). Oracle: model from the statement (live set + justification list; retract removes the target, then to a fixpoint every fact with no explicit justification and no justification whose premises are all live). engine-* parts: after every operation working_memory().get(h).is_some() == model liveness for every handle ever issued, is_explicit/is_logical agree for live facts, has_valid_justification is true for live facts and equals model support for facts without explicit justification. tms-* parts: the set returned by retract_with_cascade (minus the target) equals the set the model removes besides the target, plus the same flag checks. Non-trivial: the history contains a retraction of a live fact that removes >= 2 facts, or leaves a fact alive only through another (second logical or explicit) justification after one of its justifications became invalid, or targets a derived fact; distinct by operation sequence.",
         assumptions: vec![
             "a derived fact that is itself the target of retract() is absent afterwards even if its premises are still present (the statement's 'exactly when' is read for facts that were not retracted directly)".into(),
             "support graphs are acyclic: an added justification only uses premises created before the justified fact".into(),
